@@ -14,6 +14,7 @@ _FAMILIES = {
     "bisync": ["C14", "C18"],
     "loop": ["C13"],
     "cluster": ["C19"],
+    "replica": ["C16"],
 }
 
 REGISTRY = {}
